@@ -421,7 +421,7 @@ func run20(r *mon.Run) {
 	// ---- (A) directory trees
 	nTrees := 16
 	if r.Thorough {
-		nTrees = 400
+		nTrees = 1600
 	}
 	for t := 0; t < nTrees; t++ {
 		if !r.Mine(t) {
@@ -613,7 +613,7 @@ func run20(r *mon.Run) {
 	// ---- (B) HAR
 	nHar := 8
 	if r.Thorough {
-		nHar = 200
+		nHar = 800
 	}
 	for h := 0; h < nHar; h++ {
 		if !r.Mine(h) {
@@ -793,7 +793,7 @@ func run20(r *mon.Run) {
 	// the second origin's certificate; both chains end in the same intermediate (two origins served by one CA)
 	nTwo := 2
 	if r.Thorough {
-		nTwo = 24
+		nTwo = 96
 	}
 	for t := 0; t < nTwo; t++ {
 		if !r.Mine(t) {
@@ -916,7 +916,7 @@ func run20(r *mon.Run) {
 	// ---- (D) gen-signedexchange -> dump-signedexchange -verify
 	nSxg := 12
 	if r.Thorough {
-		nSxg = 300
+		nSxg = 1200
 	}
 	for s := 0; s < nSxg; s++ {
 		if !r.Mine(s) {
